@@ -1425,7 +1425,8 @@ class BaseOdeModel(object):
         if isinstance(input_str, ODEVariable):
             input_str = input_str.ID
 
-        if input_str in self._paramDict:
+        # time is recorded in _paramDict but it is not a parameter
+        if input_str in self._paramDict and self._paramDict[input_str] is not self._t:
             return self._paramDict[input_str]
         else:
             raise InputError("Input parameter: %s does not exist" % input_str)
